@@ -197,6 +197,19 @@ func (p *c03Printer) list(ns []*c03Node) {
 	}
 }
 
+// c03PendingFix_InRightAssoc: the statement puts `in` into the operator table
+// and says "binary operators left-associative" (only `?:` and `??` are named
+// right-associative), so `a in xs in ys` spells (a in xs) in ys. On the
+// unchanged tree the grammar declares `%right IN` and builds a in (xs in ys)
+// (always a run error: the inner `in` yields a bool, which is no list).
+// Reported in /tmp/strengthen/C03-r4-genuine.md (item 1). While the constant is
+// true an `in` expression that is an operand of `in` is spelled in parentheses
+// on both sides, as it always was; set it to false once /repo is repaired
+// (`%left IN`): the left operand is then spelled bare in the minimal spellings
+// (all 2- and 3-operator trees of phase enum hold every such chain) and must
+// parse to the left-associative tree.
+const c03PendingFix_InRightAssoc = false
+
 // c03PendingFix_NegNumPostfix: on the unchanged tree `-5[0]` parses to
 // (-5)[0]: the production `expr_literals: '-' NUMBER` is reduced before the
 // postfix operator is looked at, although the table puts postfix tighter than
@@ -206,6 +219,22 @@ func (p *c03Printer) list(ns []*c03Node) {
 // always was; set it to false once /repo is repaired: `5[0]`, `-5(2)`,
 // `-0xe[1:2]` are then spelled bare and must parse to the table's tree.
 const c03PendingFix_NegNumPostfix = false
+
+// c03HasChainedIn: the tree holds an `in` whose left operand is an `in` (written without parentheses: `a in b in c`).
+func c03HasChainedIn(n *c03Node) bool {
+	if n == nil {
+		return false
+	}
+	if n.k == c03Bin && n.op == "in" && len(n.kids) == 2 && n.kids[0] != nil && n.kids[0].k == c03Bin && n.kids[0].op == "in" {
+		return true
+	}
+	for _, k := range n.kids {
+		if c03HasChainedIn(k) {
+			return true
+		}
+	}
+	return false
+}
 
 // c03HasNegNumPostfix: the tree holds a unary minus applied to a postfix chain
 // (call, index, slice, member) whose innermost base is a numeric literal.
@@ -264,8 +293,12 @@ func (p *c03Printer) node(n *c03Node) {
 		switch n.op {
 		case "??": // right-associative, same level as ?:
 			nl, nr = l.level() <= 1, false
-		case "in": // level fixed by the table, associativity not: an `in` operand is always parenthesised
-			nl, nr = l.level() <= L, r.level() <= L
+		case "in":
+			if c03PendingFix_InRightAssoc { // an `in` operand of `in` is always parenthesised
+				nl, nr = l.level() <= L, r.level() <= L
+			} else { // left-associative like every binary operator but ??
+				nl, nr = l.level() < L, r.level() <= L
+			}
 		default: // left-associative
 			nl, nr = l.level() < L, r.level() <= L
 		}
@@ -998,6 +1031,11 @@ func c03CheckTree(c *wk.Case, t *c03Node, posIdx int, exec bool, origin string) 
 		if ok, where := c03DiffSig(want, got); !ok {
 			in := map[string]interface{}{"origin": origin, "position": pos.name, "spelling": s.name, "src": c03Clip(s.prog),
 				"want": c03Clip(want.canon()), "got": c03Clip(got.canon())}
+			if strings.Contains(where, "[in]") && c03HasChainedIn(want) {
+				// the listed finding: `a in b in c` groups to the right. Its own signature, so that
+				// any other deviation around `in` is still reported.
+				where = "chained-in-groups-to-the-right"
+			}
 			if strings.HasPrefix(where, "shape:want[unary-]") && c03HasNegNumPostfix(want) {
 				// the listed finding: `-5[0]` is built as (-5)[0]. Its own signature, so that a
 				// unary minus that binds too tightly on any OTHER operand is still reported.
@@ -1375,6 +1413,8 @@ func (g *c03Gen) intLit() *c03Node {
 		n.src = "0x" + strconv.FormatInt(v, 16)
 	case 1:
 		n.src = "0b" + strconv.FormatInt(v, 2)
+	case 2: // a decimal literal behind zeros denotes the decimal number written (see c03IntSpellings)
+		n.src = strings.Repeat("0", 1+g.r.Intn(2)) + strconv.FormatInt(v, 10)
 	}
 	return n
 }
@@ -1818,10 +1858,25 @@ func c03MixCase(r *rand.Rand, s string) string {
 	return string(b)
 }
 
+// c03LeadZeros: a run of 1..3 zeros (one draw in eight: 20..29 zeros, longer than any int64 has digits).
+func c03LeadZeros(r *rand.Rand) string {
+	n := 1 + r.Intn(3)
+	if r.Intn(8) == 0 {
+		n = 20 + r.Intn(10)
+	}
+	return strings.Repeat("0", n)
+}
+
+// "dec0": the decimal digits of v behind a run of zeros. The language has decimal,
+// hexadecimal (0x) and binary (0b) integers and no octal form: a literal made of
+// decimal digits only is a decimal integer and "denotes exactly what is written",
+// so 010 is ten, 0755 is seven hundred and fifty-five, 08 is eight, and
+// 09223372036854775807 is MaxInt64 (representable, hence not to be rejected).
 func c03IntSpellings(r *rand.Rand, v int64) map[string]string {
 	zeros := strings.Repeat("0", r.Intn(3)*r.Intn(3))
 	return map[string]string{
 		"dec":  strconv.FormatInt(v, 10),
+		"dec0": c03LeadZeros(r) + strconv.FormatInt(v, 10),
 		"hex":  "0x" + zeros + c03MixCase(r, strconv.FormatInt(v, 16)),
 		"hexX": "0X" + c03MixCase(r, strconv.FormatInt(v, 16)),
 		"bin":  "0b" + zeros + strconv.FormatInt(v, 2),
@@ -1855,7 +1910,10 @@ func c03FloatSpellings(r *rand.Rand, f float64) map[string]string {
 		}
 		out["float-dot"] = s
 		out["float-dot0"] = s + "0"
+		// zeros in front of the integer part change nothing about the decimal fraction written: 010.5 is ten and a half
+		out["float-lead0"] = c03LeadZeros(r) + s
 	}
+	out["float-lead0-e"] = c03LeadZeros(r) + e // 01e+01, 007.5e-03
 	return out
 }
 
@@ -1946,6 +2004,10 @@ func c03Quote(r *rand.Rand, s string, q rune) string {
 var c03IntPool = []int64{0, 1, 2, 5, 7, 10, 255, 256, 4095, 4096, 4097, 65535, 1<<31 - 1, 1 << 31, 1 << 32, 1<<53 - 1, 1 << 53, 1<<53 + 1,
 	1 << 62, math.MaxInt64 - 1, math.MaxInt64, 0x5555555555555555, 1000000007, 123456789012345678}
 
+// values spelled with leading zeros in the fixed case
+var c03Lead0Pool = []int64{0, 1, 7, 8, 9, 10, 17, 18, 19, 42, 77, 80, 89, 98, 100, 101, 108, 644, 755, 777, 1000, 1777, 2019, 8080, 9999, 1234567, 7654321, 1<<31 - 1,
+	1 << 32, 1000000007, 1 << 53, 1 << 62, 777777777777777777, 888888888888888888, 999999999999999999, 1000000000000000000, math.MaxInt64 - 1, math.MaxInt64}
+
 var c03FloatPool = []float64{0, 0.5, 1, 1.5, 2.5, 0.1, 0.2, 0.3, 1.0 / 3, 4.35, 1e6, 1e15, 1e16, 1e21, 1e22, 1e23, 1e-7, 1e-5, 123.456,
 	math.MaxFloat64, math.SmallestNonzeroFloat64, 2.2250738585072014e-308, 2.2250738585072011e-308, 1 << 53, 1<<53 + 2, 9007199254740993,
 	9.223372036854775807e18, 1.7976931348623157e308, 5e-324, 3.141592653589793, 2.718281828459045, 6.02214076e23, 1.602176634e-19}
@@ -1989,6 +2051,23 @@ func c03LiteralCase(c *wk.Case, per int) {
 				c03LitMust(c, cl, s, c03Want{kind: 'i', i: v}, i)
 			}
 		}
+		// decimal integers behind 1, 2, 3 and 21 zeros: values whose digits are all below 8 (a reading in
+		// another base gives another number), values with the digits 8 and 9, and the int64 boundaries
+		for i, v := range c03Lead0Pool {
+			d := strconv.FormatInt(v, 10)
+			for nz, z := range []string{"0", "00", "000", strings.Repeat("0", 21)} {
+				c03LitMust(c, "dec0", z+d, c03Want{kind: 'i', i: v}, 0)
+				c03LitMust(c, "dec0", z+d, c03Want{kind: 'i', i: v}, 1+i+nz)
+				c03LitNeg(c, "neg-dec0", z+d, c03Want{kind: 'i', i: v}, []string{"", " "}[(i+nz)%2], false)
+			}
+		}
+		for i, f := range []struct {
+			s string
+			f float64
+		}{{"010.5", 10.5}, {"01e1", 1e1}, {"00.5", 0.5}, {"007.25e2", 7.25e2}, {"08.0", 8.0}, {"019.75", 19.75}, {"0010E-1", 10e-1}, {"09e0", 9e0}, {"0123.0e+1", 123.0e+1}} {
+			c03LitMust(c, "float-lead0-fixed", f.s, c03Want{kind: 'f', f: f.f}, i)
+			c03LitNeg(c, "neg-float-lead0", f.s, c03Want{kind: 'f', f: f.f}, []string{"", " "}[i%2], false)
+		}
 		for i, f := range c03FixedFloats {
 			c03LitMust(c, "float-fixed", f.s, c03Want{kind: 'f', f: f.f}, i)
 		}
@@ -2005,9 +2084,19 @@ func c03LiteralCase(c *wk.Case, per int) {
 			c03LitReject(c, "out-of-range", s, 0)
 			c03LitReject(c, "out-of-range", s, i+1)
 		}
+		// zeros in front do not make an unrepresentable decimal representable
+		for i, s := range []string{"09223372036854775808", "0009223372036854775809", "018446744073709551615", "0018446744073709551616", "099999999999999999999999",
+			"01000000000000000000000", "0777777777777777777777777", "01e400", "002e308"} {
+			c03LitReject(c, "out-of-range-lead0", s, 0)
+			c03LitReject(c, "out-of-range-lead0", s, i+1)
+		}
+		for _, sep := range []string{"", " "} {
+			c03LitNeg(c, "neg-dec0-min", "09223372036854775808", c03Want{kind: 'i', i: math.MinInt64}, sep, true) // as neg-dec-min: both accepted
+		}
 		// below MinInt64: not representable whichever way the minus sign is read
 		for i, s := range []string{"-9223372036854775809", "-18446744073709551615", "-0x8000000000000001", "-0xFFFFFFFFFFFFFFFF", "-0XC000000000000000",
-			"-0x10000000000000000", "-0b1" + strings.Repeat("0", 62) + "1", "-0b" + strings.Repeat("1", 64), "- 0xFFFFFFFFFFFFFFFF", "-1e400"} {
+			"-0x10000000000000000", "-0b1" + strings.Repeat("0", 62) + "1", "-0b" + strings.Repeat("1", 64), "- 0xFFFFFFFFFFFFFFFF", "-1e400",
+			"-09223372036854775809", "-00018446744073709551615", "- 09223372036854775809"} {
 			c03LitReject(c, "out-of-range-negative", s, 0)
 			c03LitReject(c, "out-of-range-negative", s, i+1)
 		}
@@ -2029,10 +2118,14 @@ func c03LiteralCase(c *wk.Case, per int) {
 				v = int64(r.Uint64()>>uint(1+r.Intn(63))) & math.MaxInt64
 			}
 			sp := c03IntSpellings(r, v)
-			cl := []string{"dec", "hex", "hexX", "bin", "binB"}[r.Intn(5)]
+			cl := []string{"dec", "hex", "hexX", "bin", "binB", "dec0", "dec0"}[r.Intn(7)]
 			if r.Intn(5) == 0 {
 				sep := []string{"", " "}[r.Intn(2)]
-				c03LitNeg(c, "neg-"+strings.ToLower(cl[:3]), sp[cl], c03Want{kind: 'i', i: v}, sep, false)
+				ncl := "neg-" + strings.ToLower(cl[:3])
+				if cl == "dec0" {
+					ncl = "neg-dec0"
+				}
+				c03LitNeg(c, ncl, sp[cl], c03Want{kind: 'i', i: v}, sep, false)
 			} else {
 				c03LitMust(c, cl, sp[cl], c03Want{kind: 'i', i: v}, ctx)
 			}
@@ -2052,7 +2145,7 @@ func c03LiteralCase(c *wk.Case, per int) {
 				f = 1.5
 			}
 			sp := c03FloatSpellings(r, f)
-			keys := []string{"float-e+", "float-E", "float-e", "float-E-noplus", "float-e1", "float-nodot", "float-dot", "float-dot0"}
+			keys := []string{"float-e+", "float-E", "float-e", "float-E-noplus", "float-e1", "float-nodot", "float-dot", "float-dot0", "float-lead0", "float-lead0-e"}
 			cl := keys[r.Intn(len(keys))]
 			s, ok := sp[cl]
 			if !ok {
@@ -2076,6 +2169,9 @@ func c03LiteralCase(c *wk.Case, per int) {
 				switch r.Intn(3) {
 				case 0:
 					s, cl = v.String(), "out-of-range-dec"
+					if r.Intn(3) == 0 {
+						s, cl = c03LeadZeros(r)+s, "out-of-range-dec0"
+					}
 				case 1:
 					s, cl = "0x"+c03MixCase(r, v.Text(16)), "out-of-range-hex"
 				default:
@@ -2294,18 +2390,19 @@ func init() {
 					strconv.Itoa(k2) + "+" + strconv.Itoa(k3) + " trees = all ordered pairs and triples in every shape), plus all unary x binary/?:/postfix/unary, binary x postfix, postfix x postfix " +
 					"neighbourhoods and operators inside delimited slots (" + strconv.Itoa(len(c03Nbr)) + " trees); each spelled minimal, minimal without optional blanks, fully parenthesised (operators) and fully parenthesised (leaves too), " +
 					"bare and embedded in a rotating statement position; each spelling must parse to the tree itself (AST converted back, ParenExpr/positions ignored, -5 ~ literal -5), dump identically, and minimal/full must evaluate alike. " +
-					"phase trees: PRNG-drawn typed trees (depth<=6 quick, <=8 thorough) over all operators, postfix forms, literals, names, calls, array/map/func literals, embedded in all " + strconv.Itoa(len(c03Positions)) + " statement positions (incl. the right-hand side of a two-target assignment `r, v = e`; the fully parenthesised spelling wraps the complete expression, a root that is no operator is wrapped in an extra spelling where the case is executed): same program tree and value. " +
-					"phase literals: Go values spelled as decimal/0x/0X/0b/0B integers, floats (., e, E, signed exponents), \"..\"/'..' strings with escapes, raw strings; negative forms; out-of-range and malformed spellings must give *parser.Error; " +
+					"phase trees: PRNG-drawn typed trees (depth<=6 quick, <=8 thorough) over all operators, postfix forms, literals (integers also as 0x/0b and behind leading zeros), names, calls, array/map/func literals, embedded in all " + strconv.Itoa(len(c03Positions)) + " statement positions (incl. the right-hand side of a two-target assignment `r, v = e`; the fully parenthesised spelling wraps the complete expression, a root that is no operator is wrapped in an extra spelling where the case is executed): same program tree and value. " +
+					"phase literals: Go values spelled as decimal/0x/0X/0b/0B integers, decimal integers and floats behind 1..3 (one draw in eight 20..29) leading zeros (they denote the decimal number written: 010 is ten, 08 eight, 09223372036854775807 MaxInt64; fixed list of values with only digits below 8, with the digits 8 and 9 and at the int64 boundaries, each also negated; unrepresentable decimals stay rejected behind zeros), floats (., e, E, signed exponents), \"..\"/'..' strings with escapes, raw strings; negative forms; out-of-range and malformed spellings must give *parser.Error; " +
 					"string values also draw non-ASCII code points from the whole range (half of them with the low byte of a lexically meaningful ASCII character), written as themselves and after an escaped backslash; " +
 					"undefined escapes (complete every run, one 256-code-point block per case from case 1): a backslash before every code point of U+0080..U+307F and of " + strconv.Itoa(len(c03EscBlocks)-0x30) + " further BMP/astral blocks, plus 32 drawn code points per case, in both quote styles with rotating defined surroundings: the literal must denote only characters that were written (X kept, backslash and X kept, both dropped, or *parser.Error) and the choice must be the same for every X (compared with U+00E9, U+65E5, U+1F600). " +
-					"bare position also: the same source through a parser.Scanner re-initialised with Init must give ParseSrc's tree (pending fix, see c03PendingFix_ScannerReinit). " +
+					"bare position also: the same source through a parser.Scanner re-initialised with Init must give ParseSrc's tree. " +
 					"non-trivial = tree with >=2 operators, or any literal check; distinct = distinct (position, minimal source) / (literal source).",
 				Assumptions: []string{
 					"strconv.FormatFloat(-1) emits digits that denote the float exactly; Go constant arithmetic is the reference for fixed float spellings",
-					"unspecified, kept out or accepted both ways: `<-`, chained `in` without parentheses, ++/--/op=, escapes before letters/digits (\\x41), leading-zero decimals, `1.`, `.5`, float underflow (1e-400), CR in raw strings, numeric literal directly before `.name` or `...` (`5.x`, `f(1...)`: where the number token ends is not fixed by the statement), top-level `in`/map literal directly after `for`, -2^63 spelled with a minus sign (MinInt64 or rejection)",
+					"unspecified, kept out or accepted both ways: `<-`, ++/--/op=, escapes before letters/digits (\\x41), `1.`, `.5`, float underflow (1e-400), CR in raw strings, numeric literal directly before `.name` or `...` (`5.x`, `f(1...)`: where the number token ends is not fixed by the statement), top-level `in`/map literal directly after `for`, -2^63 spelled with a minus sign (MinInt64 or rejection)",
 					"a backslash before a non-ASCII character has no defined value (Go rejects it): only 'made of the written characters' and 'the same rule for every such character' are judged",
-					"pending repairs of /repo (constants c03PendingFix_*, reported in /tmp/strengthen/C03-genuine.md): numeric literal as the base of call/index/slice is spelled in parentheses (`-5[0]` parses to (-5)[0]); an index expression as the complete right-hand side of the two-target position is never root-parenthesised (`r, v = (m[k])` is not the (value, found) form); the re-initialised-Scanner observation is off (Init keeps the old offset)",
+					"chained `in` (`a in xs in ys`) is generated bare: it parses right-associatively although the statement says left; reported every run as a known finding (the baseline suite pins the right-associative reading in TestItemInList). The earlier constants are false, their workload is on: numeric literal as the bare base of call/index/slice (`-5[0]` parses to (-5)[0]: reported every run as a known finding), `r, v = (m[k])` and the re-initialised Scanner (both repaired in /repo)",
 					"run-time errors of type-wild trees are not judged, only that both spellings agree",
+					"the statement names decimal, hexadecimal and binary integers and no octal form: a literal of decimal digits only is read as decimal whatever its first digit (leading zeros carry no meaning, as in Go's 010.5 and strconv base 10)",
 				},
 				Phases: []fw.Phase{
 					{Name: "enum", Cases: enumCases, Chunk: 30, Exhaust: true, TimeoutS: 900},
